@@ -1,41 +1,38 @@
 /-
-  Lemmas/ToyScalar.lean — a toy arithmetic on `Int` (`sqrt` = absolute value, `EPSILON` = 1), used only for
-  non-vacuity examples of the structural theorems: those use no arithmetic law, so any instance will do, and
-  this one evaluates in the kernel (`decide` / `rfl`).
+  Lemmas/ToyScalar.lean — a tiny decidable `Scalar` instance over `Int`, used only to give
+  non-vacuity examples and `decide`-checked counterexamples for theorems stated for every
+  `[Scalar F]`. Keys are the integers themselves, `eps = 1` (so "|a − b| < eps" means `a = b`),
+  there is no NaN, decimal literals truncate. Core Lean only.
 -/
-import RosuModel.Model.Curve
-namespace Rosu.Toy
+import RosuModel.Model.Scalar
+import RosuModel.Model.Num
+namespace Rosu
 
-instance : Scalar Int where
-  ofNat n := n
-  ofSci m s e := if s then (m : Int) / (10 ^ e : Nat) else (m : Int) * (10 ^ e : Nat)
-  lt a b := decide (a < b)
-  le a b := decide (a ≤ b)
-  eq a b := decide (a = b)
+structure Z where
+  v : Int
+  deriving DecidableEq, Repr
+
+instance : Scalar Z where
+  add a b := ⟨a.v + b.v⟩
+  sub a b := ⟨a.v - b.v⟩
+  mul a b := ⟨a.v * b.v⟩
+  div a b := ⟨a.v / b.v⟩
+  neg a := ⟨-a.v⟩
+  ofNat n := ⟨n⟩
+  ofSci m s e := ⟨if s then (m : Int) / (10 ^ e : Nat) else (m : Int) * (10 ^ e : Nat)⟩
+  lt a b := decide (a.v < b.v)
+  le a b := decide (a.v ≤ b.v)
+  eq a b := decide (a.v = b.v)
   isNaN _ := false
-  abs a := a.natAbs
-  sqrt a := a.natAbs
+  abs a := ⟨a.v.natAbs⟩
+  sqrt a := a
   ceil a := a
-  eps := 1
-  ofInt a := a
-  toI32 a := a
-  toUsize a := a.toNat
-  totalKey a := a
-  parse _ := none
+  eps := ⟨1⟩
+  ofInt n := ⟨n⟩
+  toI32 a := a.v
+  toUsize a := a.v.toNat
+  totalKey a := a.v
+  parse s := (i32FromStr s).map Z.mk
   print _ := []
 
-instance : Cvt Int Int where
-  up a := a
-  down a := a
-
-instance : Trig Int where
-  sin _ := 0
-  cos _ := 1
-  acos _ := 0
-  atan2 _ _ := 0
-  pi := 3
-
-abbrev pt (x y : Int) : Pos Int := ⟨x, y⟩
-abbrev cp (x y : Int) (t : Option PathType := none) : PathControlPoint Int := ⟨⟨x, y⟩, t⟩
-
-end Rosu.Toy
+end Rosu
